@@ -44,6 +44,7 @@ theorem kInv_exec {g : Nat} {d : Doc} {s : Store} (inv : IdInv s) (h : KInv g d 
       have key : ∀ s1 : Store, s1.cfg = s.cfg → s1.T = s.T → s1.segs = s.segs → s1.gh = s.gh → s1.opened = s.opened →
           KCore s1.cfg.tpl g d (s1.T.add (infoOf s1.cfg.tpl d')) s1.segs
             { s1.gh with acked := d' :: s1.gh.acked, sess := d' :: s1.gh.sess,
+                         gone := s1.gh.gone.filter fun j => j != d'.id,
                          readded := s1.gh.readded || (s1.gh.acked.any fun a => a.id == d'.id) } := by
         intro s1 a b c e f
         rw [a, b, c, e]
